@@ -2,6 +2,8 @@ package mobius
 
 import (
 	"errors"
+	"io"
+	"log/slog"
 	"os"
 	"time"
 
@@ -98,8 +100,12 @@ func vAccess(name string) hotline.AccessBitmap {
 func vBit(b hotline.AccessBitmap, i int) bool { return b[i/8]&(0x80>>uint(i%8)) != 0 }
 
 // vNewServer builds a server with the real in-memory managers and a requester with an arbitrary bitmap.
+// a real logger that discards (logging is a no-op in the symbolic run)
+func vLogger() *slog.Logger { return slog.New(slog.NewTextHandler(io.Discard, nil)) }
+
 func vNewServer() (*hotline.Server, *hotline.ClientConn) {
 	srv, _ := hotline.NewServer()
+	srv.Logger = vLogger()
 	cc := vNewClient(srv, "me")
 	return srv, cc
 }
@@ -112,6 +118,7 @@ func vNewClient(srv *hotline.Server, name string) *hotline.ClientConn {
 		UserName:   []byte(name),
 		RemoteAddr: "10.0.0.1:5500",
 		Icon:       []byte{0, 1},
+		Logger:     vLogger(),
 	}
 	srv.ClientMgr.Add(cc)
 	return cc
